@@ -432,6 +432,165 @@ pub fn examine(ctx: &mut Ctx, src: &str, label: &str) -> bool {
     true
 }
 
+// ---------------------------------------------------------------------------------------------
+// systematic families (generator audit GA): the accepted side of every rule boundary, and every place a
+// built-in scalar can be referenced from, alone
+
+/// retarget every reference to a built-in scalar in user-written definitions (types and directive definitions)
+fn retarget_all(schema: &mut Schema, to: &apollo_compiler::Name) -> usize {
+    let mut n = 0;
+    for t in schema.types.values_mut() {
+        if t.is_built_in() { continue; }
+        match t {
+            ExtendedType::Object(o) => for f in o.make_mut().fields.values_mut() {
+                if is_builtin_scalar_name(f.ty.inner_named_type()) { let old = f.ty.clone(); f.make_mut().ty = retarget(&old, to); n += 1; }
+                for a in f.make_mut().arguments.iter_mut() { if is_builtin_scalar_name(a.ty.inner_named_type()) { let old = (*a.ty).clone(); *a.make_mut().ty.make_mut() = retarget(&old, to); n += 1; } }
+            },
+            ExtendedType::Interface(o) => for f in o.make_mut().fields.values_mut() {
+                if is_builtin_scalar_name(f.ty.inner_named_type()) { let old = f.ty.clone(); f.make_mut().ty = retarget(&old, to); n += 1; }
+                for a in f.make_mut().arguments.iter_mut() { if is_builtin_scalar_name(a.ty.inner_named_type()) { let old = (*a.ty).clone(); *a.make_mut().ty.make_mut() = retarget(&old, to); n += 1; } }
+            },
+            ExtendedType::InputObject(io) => for f in io.make_mut().fields.values_mut() { if is_builtin_scalar_name(f.ty.inner_named_type()) { let old = (*f.ty).clone(); *f.make_mut().ty.make_mut() = retarget(&old, to); n += 1; } },
+            _ => {}
+        }
+    }
+    for (dn, d) in schema.directive_definitions.iter_mut() {
+        if !dn.starts_with("gd") { continue; }
+        for a in d.make_mut().arguments.iter_mut() { if is_builtin_scalar_name(a.ty.inner_named_type()) { let old = (*a.ty).clone(); *a.make_mut().ty.make_mut() = retarget(&old, to); n += 1; } }
+    }
+    n
+}
+
+fn families(ctx: &mut Ctx) {
+    use crate::p14::{print_fields, wrap_all};
+    // ---- 1. one reference to a built-in scalar, at every kind of site, in every wrapping, with and without the
+    //         built-in directives' own references (all four redefined over a custom scalar), then a scripted history:
+    //         the reference is moved to other built-in scalars (pruned ones included) and back
+    const SITES: [(&str, &str); 12] = [
+        ("object-field", "type Query { a: S0 b: TY }"),
+        ("interface-field", "type Query { a: S0 } interface I { b: TY }"),
+        ("object-argument", "type Query { a(x: TY): S0 }"),
+        ("interface-argument", "type Query { a: S0 } interface I { b(x: S0, y: TY): S0 }"),
+        ("input-field", "type Query { a: S0 } input N { f: S0 g: TY }"),
+        ("directive-argument", "type Query { a: S0 } directive @gd(x: TY) on OBJECT"),
+        ("object-field-by-extension", "type Query { a: S0 } extend type Query { b: TY }"),
+        ("interface-field-by-extension", "type Query { a: S0 } interface I { b: S0 } extend interface I { c: TY }"),
+        ("input-field-by-extension", "type Query { a: S0 } input N { f: S0 } extend input N { g: TY }"),
+        ("argument-by-extension", "type Query { a: S0 } extend type Query { b(x: TY): S0 }"),
+        ("implementer-extra-argument", "type Query implements I { b(x: TY): S0 } interface I { b: S0 }"),
+        ("mutation-root-field", "type Query { a: S0 } type Mutation { m: TY }"),
+    ];
+    const REDEF: &str = "directive @skip(if: S0!) on FIELD | FRAGMENT_SPREAD | INLINE_FRAGMENT\ndirective @include(if: S0!) on FIELD | FRAGMENT_SPREAD | INLINE_FRAGMENT\ndirective @deprecated(reason: S0) on FIELD_DEFINITION | ARGUMENT_DEFINITION | INPUT_FIELD_DEFINITION | ENUM_VALUE\ndirective @specifiedBy(url: S0!) on SCALAR\n";
+    let wraps = ["TY", "TY!", "[TY]", "[TY!]!", "[[TY]!]"];
+    let mut rot = 0usize;
+    for (site, tpl) in SITES {
+        for (wi, w) in wraps.iter().enumerate() {
+            for (bi, b) in BUILTIN_SCALARS.iter().enumerate() {
+                for redef in [false, true] {
+                    // quick: the bare built-in directives with every scalar; the redefined header with a rotating pair
+                    if redef && !ctx.thorough && (bi + wi) % 2 != 0 { continue; }
+                    let text = format!("scalar S0\n{}{}\n", if redef { REDEF } else { "" }, tpl.replace("TY", &w.replace("TY", b)));
+                    ctx.stat_n(&format!("family_site:{site}"), 1);
+                    if redef { ctx.stat("family_site_builtin_directives_redefined"); }
+                    let Ok(Ok(v)) = catch(|| Schema::parse_and_validate(text.clone(), "s.graphql")) else { ctx.stat("family_site_invalid"); examine(ctx, &text, "site"); continue };
+                    check_valid(ctx, &v, &text, "site");
+                    // history: move the reference to two other scalars and back (thorough: through all of them)
+                    let mut cur = v.into_inner();
+                    let mut log: Vec<String> = vec![];
+                    rot += 1;
+                    let chain: Vec<&str> = if ctx.thorough { (1..=5).map(|k| BUILTIN_SCALARS[(bi + k) % 5]).collect() } else { vec![BUILTIN_SCALARS[(bi + 1 + rot % 4) % 5], BUILTIN_SCALARS[(bi + 1 + (rot / 4) % 4) % 5], b] };
+                    for to in chain {
+                        let name = apollo_compiler::Name::new(to).unwrap();
+                        let moved = retarget_all(&mut cur, &name);
+                        if moved == 0 { ctx.stat("family_site_no_reference_found"); break; }
+                        log.push(format!("retarget {moved} built-in scalar reference(s) -> {to}; validate"));
+                        let desc = format!("{text}\n## history: into_inner; {}", log.join("; into_inner; "));
+                        match catch(|| cur.clone().validate()) {
+                            Ok(Ok(v)) => { ctx.stat("family_site_history_valid"); check_valid(ctx, &v, &desc, "site-history"); cur = v.into_inner(); }
+                            Ok(Err(e)) => { ctx.fail("site-history-invalid", &desc, &format!("retargeting a built-in scalar reference to another built-in scalar made the schema invalid: {}", e.errors)); break; }
+                            Err(p) => { ctx.fail("schema-validation-panic", &desc, &p); break; }
+                        }
+                    }
+                }
+            }
+        }
+    }
+    // ---- 2. implementation contract, field types: interface field type x implementing field type over related
+    //         names x all six wrappings, object and interface implementers, fields in the definition or an extension
+    let related: &[(&str, &str)] = &[("Int", "Int"), ("A", "A"), ("Node", "Node"), ("U", "U"), ("T", "T"), ("I0", "I0"), ("Node", "A"), ("A", "Node"), ("U", "A"), ("U", "B"), ("A", "U"), ("I0", "T"), ("T", "I0"), ("Int", "A"), ("Node", "B"), ("U", "Node")];
+    let all_names = ["Int", "A", "B", "Node", "U", "T", "I0"];
+    let mut pairs: Vec<(String, String)> = related.iter().map(|(a, b)| (a.to_string(), b.to_string())).collect();
+    if ctx.thorough { for a in all_names { for b in all_names { if !pairs.iter().any(|p| p.0 == a && p.1 == b) { pairs.push((a.into(), b.into())); } } } }
+    let head = "type Query { a: Int }\ninterface Node { id: ID }\ntype A implements Node { id: ID x: Int }\ntype B { y: Int }\nunion U = A | B\n";
+    let mut k = 0usize;
+    for (ia, ib) in &pairs { for a in wrap_all(ia) { for b in wrap_all(ib) { for kw in ["type", "interface"] {
+        k += 1;
+        let text = match k % 3 {
+            0 => format!("{head}interface I0 {{ f: {} }}\n{kw} T implements I0 {{ f: {} zz: Int }}\n", a.print(), b.print()),
+            1 => format!("{head}interface I0 {{ f: {} }}\n{kw} T implements I0 {{ zz: Int }}\nextend {kw} T {{ f: {} }}\n", a.print(), b.print()),
+            _ => format!("{head}interface I0 {{ g: Int }}\n{kw} T {{ f: {} g: Int }}\nextend {kw} T implements I0\nextend interface I0 {{ f: {} }}\n", b.print(), a.print()),
+        };
+        ctx.stat("family_contract_field_type");
+        if examine(ctx, &text, "contract") { ctx.stat("family_contract_field_type_accepted"); }
+    } } } }
+    // ---- 3. implementation contract, arguments
+    let arg = |n: &str, t: T, d: Option<&str>| GIn { name: n.into(), ty: t, default: d.map(|s| s.to_string()), dirs: vec![] };
+    let a_opts: Vec<Option<GIn>> = vec![None, Some(arg("a", T::n("Int"), None)), Some(arg("a", T::n("Int").nn(), None)), Some(arg("a", T::n("Int").list(), None)), Some(arg("a", T::n("Int").nn().list(), None)), Some(arg("a", T::n("String"), None)), Some(arg("a", T::n("Int"), Some("1")))];
+    let c_opts: Vec<Option<GIn>> = vec![None, Some(arg("c", T::n("Int"), None)), Some(arg("c", T::n("Int").nn(), None)), Some(arg("c", T::n("Int").nn(), Some("1"))), Some(arg("c", T::n("Int").nn().list().nn(), None)), Some(arg("c", T::n("Int").list().nn(), Some("[]")))];
+    for ia in &a_opts { for ta in &a_opts { for tc in &c_opts { for kw in ["type", "interface"] {
+        if kw == "interface" && !ctx.thorough && tc.is_some() { continue; }
+        let fi = GField { name: "f".into(), args: ia.iter().cloned().collect(), ty: T::n("Int"), dirs: vec![] };
+        let ft = GField { name: "f".into(), args: [tc, ta].iter().filter_map(|x| (*x).clone()).collect(), ty: T::n("Int"), dirs: vec![] };
+        let text = format!("type Query {{ a: Int }}\ninterface I0 {{ {} }}\n{kw} T implements I0 {{ {} }}\n", print_fields(&[fi]), print_fields(&[ft]));
+        ctx.stat("family_contract_arguments");
+        if examine(ctx, &text, "contract") { ctx.stat("family_contract_arguments_accepted"); }
+    } } } }
+    // ---- 4. root operations: every assignment of the three roots over objects and the other kinds, through a
+    //         schema definition, a schema extension, or the default names
+    const POOL: [&str; 8] = ["A", "B", "I", "S", "Undef", "In", "U", "E"];
+    let decls = "type A { x: Int }\ntype B { x: Int }\ninterface I { x: Int }\nscalar S\ninput In { x: Int }\nunion U = A | B\nenum E { V }\n";
+    let ops = ["query", "mutation", "subscription"];
+    for q in 0..9usize { for m in 0..9usize { for s in 0..9usize {
+        let slots = [q, m, s];
+        let parts: Vec<String> = (0..3).filter(|i| slots[*i] > 0).map(|i| format!("{}: {}", ops[i], POOL[slots[i] - 1])).collect();
+        if parts.is_empty() { continue; }
+        let mode = (q + 2 * m + 3 * s) % 3;
+        let text = if mode == 1 && parts.len() > 1 { format!("{decls}schema {{ {} }}\nextend schema {{ {} }}\n", parts[0], parts[1..].join(" ")) }
+            else if mode == 2 && parts.len() > 1 { format!("{decls}extend schema {{ {} }}\nschema {{ {} }}\n", parts[parts.len() - 1], parts[..parts.len() - 1].join(" ")) }
+            else { format!("{decls}schema {{ {} }}\n", parts.join(" ")) };
+        ctx.stat("family_roots");
+        if examine(ctx, &text, "roots") { ctx.stat("family_roots_accepted"); }
+    } } }
+    // default root names taken by every kind of type
+    let kinds: [&dyn Fn(&str) -> String; 7] = [&|n| format!("type {n} {{ x: Int }}"), &|n| format!("interface {n} {{ x: Int }}"), &|n| format!("scalar {n}"), &|n| format!("input {n} {{ x: Int }}"), &|n| format!("union {n} = Zed"), &|n| format!("enum {n} {{ V }}"), &|_| String::new()];
+    for q in 0..7usize { for m in 0..7usize { for s in 0..7usize {
+        if !ctx.thorough && q != 0 && (m + s) % 2 == 1 { continue; }
+        let text = format!("type Zed {{ x: Int }}\n{}\n{}\n{}\n", kinds[q]("Query"), kinds[m]("Mutation"), kinds[s]("Subscription"));
+        ctx.stat("family_default_roots");
+        if examine(ctx, &text, "roots") { ctx.stat("family_default_roots_accepted"); }
+    } } }
+    // ---- 5. input objects: every two-node graph with up to two reference fields in all, each reference in five
+    //         wrappings, plain / with default values / supplied by an extension
+    let refs = |j: usize| -> Vec<(String, &'static str)> { let n = format!("In{j}"); vec![(format!("{n}!"), "{}"), (n.clone(), "{}"), (format!("[{n}!]!"), "[]"), (format!("[{n}!]"), "[]"), (format!("[{n}]!"), "[]")] };
+    let mut shapes: Vec<Vec<(String, &'static str)>> = vec![vec![]];
+    for j in 0..2 { for r in refs(j) { shapes.push(vec![r]); } }
+    for r in refs(0) { for r2 in refs(1) { shapes.push(vec![r.clone(), r2.clone()]); shapes.push(vec![r2, r.clone()]); } }
+    let mut k = 0usize;
+    for a in &shapes { for b in &shapes {
+        if !ctx.thorough && a.len() + b.len() > 2 { continue; }
+        if a.is_empty() && b.is_empty() { continue; }
+        k += 1;
+        let mode = k % 3;
+        let node = |i: usize, fs: &Vec<(String, &'static str)>| -> String {
+            let parts: Vec<String> = fs.iter().enumerate().map(|(k, (t, d))| if mode == 1 { format!("f{k}: {t} = {d}") } else { format!("f{k}: {t}") }).collect();
+            if mode == 2 && !parts.is_empty() { format!("input In{i} {{ pad: Int }}\nextend input In{i} {{ {} }}\n", parts.join(" ")) } else { format!("input In{i} {{ {} pad: Int }}\n", parts.join(" ")) }
+        };
+        let text = format!("type Query {{ a: Int }}\n{}{}", node(0, a), node(1, b));
+        ctx.stat("family_input_graph");
+        if examine(ctx, &text, "input-graph") { ctx.stat("family_input_graph_accepted"); }
+    } }
+}
+
 /// move `d` one definition closer to `base`; false when they print the same set of definitions
 fn repair_step(d: &mut Vec<GDef>, base: &[GDef], r: &mut Rng) -> bool {
     let bp: Vec<String> = base.iter().map(print_def).collect();
@@ -472,6 +631,7 @@ pub fn run(ctx: &mut Ctx) {
         "type Query { a: Nope }",
     ];
     for s in FIXED { examine(ctx, s, "fixed"); }
+    families(ctx);
     // scripted histories: retarget the only reference of a built-in scalar to a pruned one, and back
     for (src, chain) in [("type Query { reading: Int }", vec!["Float", "ID", "Int", "String"]), ("type Query { a(x: Int): String } input In { f: Int }", vec!["Boolean", "Float"])] {
         if let Ok(Ok(v)) = catch(|| Schema::parse_and_validate(src, "s.graphql")) {
